@@ -31,11 +31,31 @@ B = {
     3: "module mb\n  implicit none\n  integer :: standalone\nend module mb\n",
 }
 C = {
-    1: "program pc\n  use mb\n  implicit none\n  type(u) :: v\n  type(t) :: w\n  v%d = 1\n  v%c1 = 2\n  w%c1 = 3\n  call gen(1)\n  call useit(v)\nend program pc\n",
+    1: "program pc\n  use mb\n  implicit none\n  type, extends(u) :: leaf\n    integer :: z\n  end type leaf\n  type(u) :: v\n  type(t) :: w\n  type(leaf) :: lf\n  v%d = 1\n  v%c1 = 2\n  w%c1 = 3\n  lf%c1 = 4\n  lf%z = 5\n  call gen(1)\n  call useit(v)\nend program pc\n",
     2: "program pc\n  use ma\n  implicit none\n  type(t) :: w\n  w%c2 = 3\n  w%c1 = 4\n  call gen(2)\nend program pc\n",
     3: "subroutine lonely()\n  use mb, only: useit\n  implicit none\nend subroutine lonely\n",
 }
+def _inline(text, old, new):
+    assert old in text and "\n" not in old
+    return text.replace(old, new, 1)
+
+
+# variant 4: variant 1 with ONE line edited in place (sent as a single-line ranged change)
+A[4] = _inline(A[1], "    integer :: c1", "    integer :: c9")
+B[4] = _inline(B[1], "    integer :: d", "    integer :: d9")
+C[4] = _inline(C[1], "  type(t) :: w", "  type(t) :: w9")
 CONTENT = {"a": A, "b": B, "c": C}
+
+
+def change_for(f, old_v, new_v):
+    """LSP content change taking variant old_v to new_v: a single-line ranged edit when they differ in one line."""
+    a, b = CONTENT[f][old_v].split("\n"), CONTENT[f][new_v].split("\n")
+    if len(a) == len(b):
+        diff = [i for i in range(len(a)) if a[i] != b[i]]
+        if len(diff) == 1:
+            i = diff[0]
+            return {"range": {"start": {"line": i, "character": 0}, "end": {"line": i, "character": len(a[i])}}, "text": b[i]}
+    return {"text": CONTENT[f][new_v]}
 FN = {"a": "a.f90", "b": "b.f90", "c": "c.f90"}
 
 
@@ -101,7 +121,7 @@ def replay_history(hist):
                 opened[f] = True
                 buf[f] = disk[f]
             elif e == "edit":
-                adapter.notify(s, c, "textDocument/didChange", {"textDocument": {"uri": adapter.uri(d, FN[f])}, "contentChanges": [{"text": CONTENT[f][ev["v"]]}]})
+                adapter.notify(s, c, "textDocument/didChange", {"textDocument": {"uri": adapter.uri(d, FN[f])}, "contentChanges": [change_for(f, buf[f], ev["v"])]})
                 buf[f] = ev["v"]
                 dirty[f] = True
             elif e == "save":
